@@ -54,10 +54,11 @@ CLAIMED.update({
 
 CLAIMED.update({
     "C16": (
-        "closed-form / must-check analysis of the driver on FoIR, who-may-call inventory of file APIs, cursor state-machine analysis of every hand-written loop, belief rules on guarded unfolding",
-        "Termination in general is NOT decided. Decided for all inputs and faults: I/O results are tested and failures reach a diagnostic; the single write receives the complete translation; one recover/exit site with non-zero status; "
-        "each of the 38 hand-written loops exits at end of input and makes progress (4 in a manual table with reasons); unfolding of named/cyclic data is guarded (2 known findings: self-referential records overflow the stack).",
-        "Assumes run-time panics inside the deferred region become diagnostics; the parser's token-driven recursion, ParseList callback progress, the resolver fixpoint, stack depth and memory are not decided.",
+        "closed-form / must-check analysis of the driver on FoIR, who-may-call inventory of file APIs, cursor state-machine analysis of every hand-written loop, belief rules on guarded unfolding, abstract interpretation of parser productivity (ADV)",
+        "Termination as a whole is NOT decided. Decided for all inputs and faults: I/O results are tested and failures reach a diagnostic; the single write receives the complete translation; one recover/exit site with non-zero status; "
+        "each of the 38 hand-written loops exits at end of input and makes progress; unfolding of named/cyclic data is guarded (2 known findings: self-referential records overflow the stack); "
+        "the parser's recursion is productive — no cycle of the call/callback graph without consuming a token, every ParseList step and grammar callback consumes a token or panics — so parsing terminates on every finite token sequence.",
+        "Assumes run-time panics inside the deferred region become diagnostics and that every non-EOF token has positive length. The resolver fixpoint, inference recursion other than the guarded unfoldings, stack depth and memory are not decided.",
         "DESIGN.md §3 C16",
     ),
 })
